@@ -89,6 +89,8 @@ Section DtInd.
     end.
 End DtInd.
 
+Ltac app_norm := repeat (progress (cbn [app]; rewrite <- ?app_assoc)).
+
 (** ** The scan as a fold *)
 Definition env_upd (env : denv) (i : instr) : denv :=
   match i with
@@ -285,18 +287,20 @@ Section Tokens.
   Lemma dt_toks_acc : forall t acc, dt_toks D NM t acc = tk t ++ acc.
   Proof.
     unfold tk.
-    induction t as [p|n|n|n i|f args IH|tg|o l IHl r IHr|c l IHl r IHr|o l IHl r IHr|n] using dt_ind';
+    induction t as [p|n|n|n i|f args IH|tg|o l r IHl IHr|c l r IHl IHr|o l r IHl IHr|n] using dt_ind';
       intro acc; cbn [dt_toks]; try reflexivity.
     - cbn [app]. f_equal.
       induction IH as [|a args Ha _ IHargs]; [reflexivity|].
       rewrite Ha. rewrite (Ha (KCallSep :: _)). rewrite <- app_assoc. cbn [app]. f_equal. f_equal.
       exact IHargs.
-    - rewrite IHl, (IHl (KOp o :: _)), IHr, (IHr []), <- app_assoc. cbn [app].
-      rewrite app_nil_r. reflexivity.
-    - rewrite IHl, (IHl (KCmp c :: _)), IHr, (IHr [KClose]), <- !app_assoc. cbn [app].
+    - rewrite (IHl (KOp o :: dt_toks D NM r acc)), (IHl (KOp o :: dt_toks D NM r [])), (IHr acc).
       rewrite <- app_assoc. reflexivity.
-    - rewrite IHl, (IHl (KLogic o :: _)), IHr, (IHr [KClose]), <- !app_assoc. cbn [app].
-      rewrite <- app_assoc. reflexivity.
+    - rewrite (IHl (KCmp c :: dt_toks D NM r (KClose :: acc))),
+        (IHl (KCmp c :: dt_toks D NM r [KClose])), (IHr (KClose :: acc)), (IHr [KClose]).
+      app_norm. reflexivity.
+    - rewrite (IHl (KLogic o :: dt_toks D NM r (KClose :: acc))),
+        (IHl (KLogic o :: dt_toks D NM r [KClose])), (IHr (KClose :: acc)), (IHr [KClose]).
+      app_norm. reflexivity.
   Qed.
 
   Lemma tk_op o l r : tk (DOp o l r) = tk l ++ KOp o :: tk r.
@@ -352,7 +356,8 @@ Section Tokens.
 
   Lemma site_ok_eqb sm u e : site_ok u e -> site_eqb sm D NM u e = true.
   Proof.
-    destruct u, e; cbn [site_ok site_eqb]; try contradiction; unfold tree_is; fold (tk t).
+    destruct u as [inner t|inner t|t|t|t|f args], e as [x k toks|x ko toks|toks|toks|toks|g tokss];
+      cbn [site_ok site_eqb]; try contradiction; unfold tree_is, tk.
     - intros (Hd & Hn & Ht & Hb). rewrite Hd, Hn, Ht. cbn [opt_str_eqb].
       rewrite String.eqb_refl, N.eqb_refl, Bool.orb_true_r, (toks_eqb_refl sm _ Hb). reflexivity.
     - intros (k0 & -> & Hd & Hn & Ht & Hb). rewrite Hd, Hn, Ht. cbn [opt_str_eqb opt_N_eqb].
@@ -361,7 +366,7 @@ Section Tokens.
     - intros (Ht & Hb). rewrite Ht. apply toks_eqb_refl, Hb.
     - intros (Ht & Hb). rewrite Ht. apply toks_eqb_refl, Hb.
     - intros (-> & Ht & Hb). rewrite String.eqb_refl. cbn [andb].
-      change (map (fun a => dt_toks D NM a []) args) with (map tk args). rewrite Ht.
+      rewrite Ht.
       apply tokss_eqb_refl, Hb.
   Qed.
 
@@ -381,28 +386,79 @@ Section Source.
   Definition links_toks (rest : links) : list tok :=
     flat_map (fun ov => KOp (fst ov) :: vtk (snd ov)) rest.
 
+  (** the nested fixpoints of the tokeniser, as functions of their own *)
+  Fixpoint links_go (rest : links) (acc : list tok) : list tok :=
+    match rest with
+    | [] => acc
+    | (o, v') :: l' => KOp o :: val_toks D sc v' (links_go l' acc)
+    end.
+  Fixpoint args_go (args : list expr) (acc : list tok) : list tok :=
+    match args with
+    | [] => KCallClose :: acc
+    | a :: l' => expr_toks D sc a (KCallSep :: args_go l' acc)
+    end.
+
+  Lemma expr_toks_unfold v rest acc :
+    expr_toks D sc (Expr v rest) acc = val_toks D sc v (links_go rest acc).
+  Proof.
+    change (expr_toks D sc (Expr v rest) acc)
+      with (val_toks D sc v
+              ((fix go (l : list (binop * expr_val)) : list tok :=
+                  match l with
+                  | [] => acc
+                  | (o, v') :: l' => KOp o :: val_toks D sc v' (go l')
+                  end) rest)).
+    f_equal. induction rest as [|[o v'] rest IH]; [reflexivity|].
+    cbn [links_go]. rewrite <- IH. reflexivity.
+  Qed.
+
+  Lemma val_toks_call_unfold f args acc :
+    val_toks D sc (EVCall f args) acc = KCallOpen (iname f) :: args_go args acc.
+  Proof.
+    change (val_toks D sc (EVCall f args) acc)
+      with (KCallOpen (iname f) ::
+            (fix go (l : list expr) : list tok :=
+               match l with
+               | [] => KCallClose :: acc
+               | a :: l' => expr_toks D sc a (KCallSep :: go l')
+               end) args).
+    f_equal. induction args as [|a args IH]; [reflexivity|].
+    cbn [args_go]. rewrite <- IH. reflexivity.
+  Qed.
+
+  Lemma val_toks_sub_unfold e acc : val_toks D sc (EVSub e) acc = expr_toks D sc e acc.
+  Proof. reflexivity. Qed.
+
   Lemma toks_acc :
     (forall e acc, expr_toks D sc e acc = etk e ++ acc) /\
     (forall v acc, val_toks D sc v acc = vtk v ++ acc).
   Proof.
     unfold etk, etoks, vtk.
-    apply expr_val_ind3; intros; cbn [expr_toks val_toks]; try reflexivity.
+    apply expr_val_ind3.
     - (* chain *)
-      rewrite H, (H (_ : list tok)). rewrite <- app_assoc. f_equal.
-      induction H0 as [|[o v'] rest Hv _ IH]; [reflexivity|]. cbn [snd] in Hv.
-      cbn [app]. f_equal. rewrite Hv, (Hv (_ : list tok)), <- app_assoc. f_equal. exact IH.
+      intros v rest Hv Hrest acc. rewrite !expr_toks_unfold.
+      rewrite (Hv (links_go rest acc)), (Hv (links_go rest [])), <- app_assoc. f_equal.
+      induction Hrest as [|[o v'] rest Hv' _ IH]; [reflexivity|]. cbn [snd] in Hv'.
+      cbn [links_go app]. f_equal.
+      rewrite (Hv' (links_go rest acc)), (Hv' (links_go rest [])), <- app_assoc. f_equal. exact IH.
+    - reflexivity.
+    - reflexivity.
     - (* call *)
-      cbn [app]. f_equal.
-      induction H as [|a args Ha _ IH]; [reflexivity|].
-      rewrite Ha, (Ha (KCallSep :: _)), <- app_assoc. cbn [app]. f_equal. f_equal. exact IH.
-    - (* brackets *) apply H.
+      intros f args Hargs acc. rewrite !val_toks_call_unfold. cbn [app]. f_equal.
+      induction Hargs as [|a args Ha _ IH]; [reflexivity|]. cbn [args_go].
+      rewrite (Ha (KCallSep :: args_go args acc)), (Ha (KCallSep :: args_go args [])), <- app_assoc.
+      f_equal. cbn [app]. f_equal. exact IH.
+    - reflexivity.
+    - (* brackets *) intros e He acc. rewrite !val_toks_sub_unfold. apply He.
+    - reflexivity.
   Qed.
 
   Lemma etk_flat v rest : etk (Expr v rest) = vtk v ++ links_toks rest.
   Proof.
-    unfold etk, etoks. cbn [expr_toks]. rewrite (proj2 toks_acc). f_equal.
+    unfold etk, etoks. rewrite expr_toks_unfold, (proj2 toks_acc). f_equal.
     induction rest as [|[o v'] rest IH]; [reflexivity|].
-    cbn [links_toks flat_map fst snd app]. f_equal. rewrite (proj2 toks_acc). f_equal. exact IH.
+    cbn [links_go links_toks flat_map fst snd app]. f_equal. rewrite (proj2 toks_acc). f_equal.
+    exact IH.
   Qed.
 
   Lemma vtk_sub e : vtk (EVSub e) = etk e.
@@ -410,8 +466,8 @@ Section Source.
 
   Lemma vtk_call f args : vtk (EVCall f args) = call_toks (iname f) (map etk args).
   Proof.
-    unfold vtk, call_toks. cbn [val_toks]. f_equal.
-    induction args as [|a args IH]; [reflexivity|].
+    unfold vtk, call_toks. rewrite val_toks_call_unfold. f_equal.
+    induction args as [|a args IH]; [reflexivity|]. cbn [args_go].
     rewrite (proj1 toks_acc), IH. cbn [map flat_map]. rewrite <- !app_assoc. reflexivity.
   Qed.
 
@@ -423,8 +479,8 @@ Section Source.
     induction t as [v|l IHl o r IHr]; cbn [embed thead tlinks].
     - cbn [links_toks flat_map]. rewrite app_nil_r. reflexivity.
     - rewrite vtk_sub, etk_flat. cbn [links_toks flat_map fst snd]. rewrite app_nil_r, IHl, IHr.
-      rewrite links_toks_app. cbn [links_toks flat_map fst snd]. rewrite <- app_assoc.
-      cbn [app]. rewrite <- app_assoc. reflexivity.
+      rewrite links_toks_app. cbn [links_toks flat_map fst snd]. rewrite ?app_nil_r. app_norm.
+      reflexivity.
   Qed.
 
   Lemma etk_fold e : etk (fold_priority e) = etk e.
@@ -439,10 +495,8 @@ Section Source.
   Lemma lcond_toks_acc : forall c acc, lcond_toks D sc c acc = lcond_toks D sc c [] ++ acc.
   Proof.
     induction c as [l cmp r | l cmp r op n IH] using lcond_ind'; intro acc; cbn [lcond_toks].
-    - rewrite !(proj1 toks_acc), (proj1 toks_acc r (KClose :: acc)), <- !app_assoc. reflexivity.
-    - rewrite !(proj1 toks_acc), (proj1 toks_acc r (KClose :: _ :: _)),
-        (proj1 toks_acc r (KClose :: _ :: lcond_toks D sc n [KClose])), IH, (IH [KClose]).
-      cbn [app]. rewrite <- !app_assoc. cbn [app]. rewrite <- !app_assoc. reflexivity.
+    - rewrite !(proj1 toks_acc). app_norm. reflexivity.
+    - rewrite (IH (KClose :: acc)), (IH [KClose]). rewrite !(proj1 toks_acc). app_norm. reflexivity.
   Qed.
 
   (** calls *)
@@ -452,14 +506,16 @@ Section Source.
 
   Lemma expr_calls_flat v rest : expr_calls (Expr v rest) = val_calls v ++ links_calls rest.
   Proof.
-    cbn [expr_calls]. f_equal. induction rest as [|[o v'] rest IH]; [reflexivity|].
-    cbn [links_calls flat_map snd]. rewrite IH. reflexivity.
+    cbn [expr_calls]. f_equal.
+    all: induction rest as [|[o v'] rest IH]; [reflexivity|];
+      cbn [links_calls flat_map snd]; rewrite IH; reflexivity.
   Qed.
 
   Lemma val_calls_call f args : val_calls (EVCall f args) = args_calls args ++ [(f, args)].
   Proof.
-    cbn [val_calls]. f_equal. induction args as [|a args IH]; [reflexivity|].
-    cbn [args_calls flat_map]. rewrite IH. reflexivity.
+    cbn [val_calls]. f_equal.
+    all: induction args as [|a args IH]; [reflexivity|];
+      cbn [args_calls flat_map]; rewrite IH; reflexivity.
   Qed.
 
   Lemma links_calls_app a b : links_calls (a ++ b) = links_calls a ++ links_calls b.
